@@ -5,9 +5,11 @@
    Steps   joined by "|" ("." = none):
            set:h:khex:v del:h:khex clear:h app:h:v idx:h:i:v pop:h      (caller mutations)
            setattr:namehex delattr:namehex setitem:khex delitem:khex    (attempts on the object)
+           copypop:khex                                                 (object.copy_pop(key), result dropped)
    Requests
-     run new|old <fuel> ctor|fromdict <clshex> <store> <args> <steps>
-         -> ok <obs> <e>/<obs> ...   |  err <E>
+     run new|old|popinplace <fuel> ctor|fromdict <clshex> <store> <args> <steps> <watch>
+         -> ok <obs> <e>/<obs> ... wb:<obs> ... wa:<obs> ...   |  err <E>
+            <watch> = (v;v;...): values observed before the construction (wb) and after the whole script (wa)
             <obs> = <content>,<to_dict>,<hashkey or U>,<id_ok 0|1> ; <e> = "-" (a caller mutation) or the error raised
      twins new|old <fuel> <clshex> <store> <args1> <args2>
          -> ok <eq12 0|1> <eq21 0|1> <hashkey1 or U> <hashkey2 or U> | err <E>
@@ -85,6 +87,7 @@ let parse_step (s : string) : step =
   | ["delattr"; f] -> SChan (CDelAttr (atom_of_hex f))
   | ["setitem"; k] -> SChan (CSetItem (atom_of_hex k, VNone))
   | ["delitem"; k] -> SChan (CDelItem (atom_of_hex k))
+  | ["copypop"; k] -> SCopyPop (atom_of_hex k)
   | _ -> failwith "step"
 let parse_steps (s : string) : step list = if s = "." then [] else List.map parse_step (String.split_on_char '|' s)
 
@@ -114,19 +117,20 @@ let show_obs (((((r, d), k), _), ok) : observation) : string =
 let hid (_ : rval) : n list = [n_of_int 1; n_of_int 42]
 let hpy (_ : rval) : n = n_of_int 0
 
-let variant_of s = if s = "old" then Old else New
+let variant_of s = if s = "old" then Old else if s = "popinplace" then PopInPlace else New
 let b01 b = if b then "1" else "0"
 let show_kind k = match k with KChecked -> "checked" | KFreezeDict -> "freezedict" | KTuplify -> "tuplify" | KUnchecked -> "unchecked"
 
 let () = serve (function
-  | ["run"; var; fuel; rt; cls; st; args; steps] ->
+  | ["run"; var; fuel; rt; cls; st; args; steps; watch] ->
       let route = if rt = "fromdict" then FromDict else Ctor in
       (match run_script hid hpy (variant_of var) (nat_of_int (int_of_string fuel)) route (atom_of_hex cls)
-               (parse_store st) (parse_args args) (parse_steps steps) with
+               (parse_store st) (parse_args args) (parse_steps steps) (parse_args watch) with
        | Err e -> "err " ^ show_err e
-       | Ok (o0, l) ->
+       | Ok (((o0, l), wb), wa) ->
            "ok " ^ String.concat " " (show_obs o0 :: List.map (fun (e, o) ->
-             (match e with None -> "-" | Some e -> show_err e) ^ "/" ^ show_obs o) l))
+             (match e with None -> "-" | Some e -> show_err e) ^ "/" ^ show_obs o) l
+             @ List.map (fun o -> "wb:" ^ show_obs o) wb @ List.map (fun o -> "wa:" ^ show_obs o) wa))
   | ["twins"; var; fuel; cls; st; a1; a2] ->
       (match run_twins hid (variant_of var) (nat_of_int (int_of_string fuel)) (atom_of_hex cls)
                (parse_store st) (parse_args a1) (parse_args a2) with
